@@ -154,7 +154,17 @@ func (ex *Exec) finishBuiltin(st *State, pc *preparedCall, k func(*State, []Val)
 	case "print", "println":
 		k(st, nil)
 	case "copy":
-		ex.oof(call.Pos(), "copy builtin")
+		// copy(dst, src) for a locally created dst: the first min(len) elements are overwritten
+		if !ex.isLocalFreshSlice(call.Args[0]) || a[0].S.K != KSlice || a[1].S.K != KSlice {
+			ex.oof(call.Pos(), "copy into a slice that is not locally created (aliasing not modelled)")
+		}
+		dst, src := a[0], a[1]
+		n := ite(app("<=", app("s-len", dst.T), app("s-len", src.T)), app("s-len", dst.T), app("s-len", src.T))
+		r := ex.freshVal("copied", ex.typeOf(call.Args[0]))
+		st.assume(and(eq(app("s-len", r.T), app("s-len", dst.T)), eq(app("s-nil", r.T), app("s-nil", dst.T))))
+		st.assume(fmt.Sprintf("(forall ((q_i Int)) (=> (and (<= 0 q_i) (< q_i %s)) (= (select (s-arr %s) q_i) (select (s-arr %s) q_i))))", n, r.T, src.T))
+		st.assume(fmt.Sprintf("(forall ((q_i Int)) (=> (and (<= %s q_i) (< q_i (s-len %s))) (= (select (s-arr %s) q_i) (select (s-arr %s) q_i))))", n, dst.T, r.T, dst.T))
+		ex.assignTo(st, call.Args[0], r, func(st2 *State) { k(st2, []Val{{T: n, S: SInt, GoT: intT}}) })
 	default:
 		ex.oof(call.Pos(), "builtin %s", pc.builtin)
 	}
